@@ -71,4 +71,35 @@ CHECKS = {
         'for ranges; plus the triple-consistency invariant evaluated on every entity the date-time model emits for every '
         'Python-supported Specs input of every culture.',
    note=BASE_NOTE),
+ 'C01': dict(engine='E1-choice-tree', design_ref='7/C01',
+   technique='exhaustive enumeration of token sequences over a closed pool x all 81 registered models; span invariant with an independent normaliser',
+   text='Every registered (model, culture) pair is run on every Python-supported Specs model input of its culture, on every 2-token '
+        '(and head 3-token) sequence over a closed per-culture pool (spec-derived words, numerals, punctuation, full-width forms, every '
+        'code point whose lower-casing changes the string length) and on pairs/triples of spec-derived entity expressions; each '
+        'returned entity must satisfy 0 <= start <= end < len(q) and normalised text == normalised slice.',
+   note=BASE_NOTE + 'Quick tier: a seed-rotated third of the spec inputs meets every model, the rest the models of their own recogniser.'),
+ 'C04': dict(engine='E1-choice-tree', design_ref='7/C04',
+   technique='exhaustive enumeration of integers (small range + compositional shapes) through numeral generators per culture',
+   text='English: every n < 10^4 (thorough 10^5), 10^k and 10^k+/-1, and the full cross product of digit classes over five 3-digit groups '
+        'up to 10^15, x and/hyphen variants x cardinal and ordinal models x carrier; Spanish, French, German, Chinese, Japanese: every '
+        'n < 10^3 (thorough 10^4) plus round numbers and composites to 10^12. One entity over the phrase with value str(n).',
+   note=BASE_NOTE + 'Numeral generators (oracles/numerals.py) are part of the trusted base; a dialect guard checks their vocabulary against '
+        'the culture maps. pt/it/nl have no generator.'),
+ 'C05': dict(engine='E1-choice-tree', design_ref='7/C05',
+   technique='exhaustive enumeration of the run-time unit tables (every unit spelling of every registered model) and of fraction pairs',
+   text='All (model, culture, unit, spelling) entries wired into the 33 registered number-with-unit models x numerals x carriers, and all '
+        'main/fraction currency pairs x 4 amounts x connectors; oracle derived from the tables themselves (any unit listing the spelling '
+        'is accepted) and the number model.',
+   note=BASE_NOTE + 'About 4% of the table entries fail on the unchanged tree and are listed one by one in known_findings.json.'),
+ 'C11': dict(engine='E1-choice-tree', design_ref='7/C11',
+   technique='invariant evaluated on every entity of an exhaustive sweep: spec inputs x references, expression pool x reference days, non-existent dates',
+   text='Well-formedness and TIMEX agreement of every resolution value on every Python-supported Specs date-time input of 9 cultures under 5 '
+        'references, ~150 generated expressions under every 3rd day of a leap year plus year boundaries 1950-2090, and non-existent '
+        'calendar dates in 10 layouts.',
+   note=BASE_NOTE),
+ 'C12': dict(engine='E1-choice-tree', design_ref='7/C12',
+   technique='same exhaustive exploration as C01; interval-disjointness invariant on the entities of each model call',
+   text='Every registered model on spec inputs, token sequences and pairs/triples of entity expressions joined by separators (adjacency is '
+        'what makes sub-extractors collide); entities of one call sorted by start must satisfy end_i < start_(i+1).',
+   note=BASE_NOTE),
 }
